@@ -17,7 +17,7 @@
 
 from array import array
 
-from .errors import CompletionCodeError, DecodingError
+from .errors import CompletionCodeError, DecodingError, RetryError
 from .utils import check_completion_code, ByteBuffer
 from .msgs import create_request_by_name
 from .msgs import constants
@@ -94,6 +94,8 @@ class Sel(object):
                     self.max_req_len = 16
                 else:
                     self.max_req_len -= 1
+                    if self.max_req_len <= 0:
+                        raise RetryError()
                 continue
             else:
                 check_completion_code(rsp.completion_code)
